@@ -19,6 +19,17 @@ Accuracy e is either a plain float or a threshold `[k, q, sign]`, resolved insid
 rank q.  Tensor families: Gaussian, integer, geometrically decaying bond weights, exact low rank hidden in
 larger TT-ranks, d = 2 with prescribed singular values (ties, gaps, exact zeros); total scales 1e-6 ... 1e6.
 Exactly-zero tensors are excluded (their NaN result is C11's finding).
+
+Parameter / regime coverage added by the audit of the signatures:
+* `C02.truncate.many_modes`  d = 20 .. 70 (thorough 100): spectra of the unfoldings and ||Y - Z|| from the cores alone
+                             (own QR / SVD sweeps, no dense array); all four contract clauses, thresholds included.
+* per-core factors 2^ex (param `ex` of the truncate clauses): +-100 (totals 2^+-400, both stab flags) and +300 / -150
+  with use_stab=True (totals up to 2^1200, outside the double range; reference from the unscaled cores).
+* mode sizes 300 .. 1025 (thorough 2048) in the truncate clauses.
+* `C02.truncate.no_orth`     orth=False (never used before): e is the absolute per-unfolding budget; on left-orthonormal
+                             input (own QR sweep) the error / rss / rank-cap contract of the sweep, otherwise structure.
+* add_many: trunc_freq in {3,4,5,6,7,15,50} against m-1 in {2..30} (dividing, not dividing, default 15 firing at
+  m = 16, 17, 31, never firing), leading numbers, float cap 2.7, each of e / r / trunc_freq left at its default.
 """
 import itertools, math
 import numpy as np
@@ -30,7 +41,9 @@ from rtc import gen
 BUDGET = (58, 580)
 BOUNDS = ('d in {2,3,4} (thorough 5), modes 1..4 (thorough 5), ranks 1..4 incl. over-ranked (thorough 6), 5 tensor '
           'families, scales 1e-6..1e6, e in {0.9..1e-10} plus (1 +- 1e-6) x every rank-change threshold in [1e-4, 0.9], '
-          'caps {1e12, 1, 2, 3, 2.7}, is_eigh x use_stab; add_many up to 7 summands, trunc_freq in {1,2,3,15}')
+          'caps {1e12, 1, 2, 3, 2.7}, is_eigh x use_stab; add_many up to 31 summands, trunc_freq in {1,2,3,4,5,6,7,15,50} '
+          'and defaults; d = 20..70 (thorough 100) with own QR/SVD oracles; per-core factors 2^+-100, 2^300, 2^-150 (stab); '
+          'mode sizes up to 1025 (thorough 2048); orth=False on pre-orthogonalised and raw inputs')
 
 EPS = np.finfo(float).eps
 E_LIST = (0.9, 0.3, 0.1, 1e-2, 1e-3, 1e-5, 1e-8, 1e-10)
@@ -121,11 +134,16 @@ class Case:
     pass
 
 
-def run(n, r, seed, kind, scale, order, e, cap, stab, eigh):
+def run(n, r, seed, kind, scale, order, e, cap, stab, eigh, ex=0):
+    """ex != 0: every core of the input carries the extra factor 2^ex (total 2^(d ex), possibly outside the double
+    range - only meaningful with stab); the reference stays at the unscaled tensor and the result is scaled back
+    core by core (exact)."""
     c = Case()
     c.Y = make(n, r, seed, kind, scale, order)
     c.d = len(n)
     c.D = gen.dense(c.Y)
+    if ex:
+        c.Y = [np.ldexp(G, ex) for G in c.Y]
     c.nrm = float(np.linalg.norm(c.D))
     if c.nrm == 0 or not np.isfinite(c.nrm):
         return None, SKIP('zero tensor (C11)')
@@ -144,6 +162,8 @@ def run(n, r, seed, kind, scale, order, e, cap, stab, eigh):
         return None, FAIL('result not well-formed: ' + msg)
     if not gen.finite(c.Z):
         return None, FAIL('non-finite cores')
+    if ex:
+        c.Z = [np.ldexp(G, -ex) for G in c.Z]
     c.rk = [1] + [G.shape[2] for G in c.Z]
     c.err = float(np.linalg.norm(gen.dense(c.Z) - c.D))
     c.floor2 = 16.0 * c.d * max(c.rin) * EPS * c.nrm ** 2
@@ -207,46 +227,46 @@ def _rank_minimal(**p):
 
 
 @clause('C02.truncate.shape_ranks', funcs=('transformation.truncate',))
-def shape_ranks(n, r, seed, kind, scale, order, e, cap, stab, eigh):
+def shape_ranks(n, r, seed, kind, scale, order, e, cap, stab, eigh, ex=0):
     """Same mode sizes, finite well-formed cores, every rank <= max(1, int(r)), <= the input rank and <= the size
     of its unfolding - for both decomposition modes and both stabilisation flags."""
-    return _shape_ranks(n=n, r=r, seed=seed, kind=kind, scale=scale, order=order, e=e, cap=cap, stab=stab, eigh=eigh)
+    return _shape_ranks(n=n, r=r, seed=seed, kind=kind, scale=scale, order=order, e=e, cap=cap, stab=stab, eigh=eigh, ex=ex)
 
 
 @clause('C02.truncate.eigh_mode.error_bound', funcs=('transformation.truncate', 'svd.matrix_svd'))
-def eigh_error_bound(n, r, seed, kind, scale, order, e, cap, stab):
+def eigh_error_bound(n, r, seed, kind, scale, order, e, cap, stab, ex=0):
     """is_eigh=True: ||Y - Z|| <= e ||Y|| whenever the cap does not bind."""
-    return _error_bound(n=n, r=r, seed=seed, kind=kind, scale=scale, order=order, e=e, cap=cap, stab=stab, eigh=True)
+    return _error_bound(n=n, r=r, seed=seed, kind=kind, scale=scale, order=order, e=e, cap=cap, stab=stab, eigh=True, ex=ex)
 
 
 @clause('C02.truncate.eigh_mode.rss_optimal', funcs=('transformation.truncate', 'svd.matrix_svd'))
-def eigh_rss(n, r, seed, kind, scale, order, e, cap, stab):
+def eigh_rss(n, r, seed, kind, scale, order, e, cap, stab, ex=0):
     """is_eigh=True: the error is at most the root-sum-square of the best unfolding errors at the returned ranks."""
-    return _rss_optimal(n=n, r=r, seed=seed, kind=kind, scale=scale, order=order, e=e, cap=cap, stab=stab, eigh=True)
+    return _rss_optimal(n=n, r=r, seed=seed, kind=kind, scale=scale, order=order, e=e, cap=cap, stab=stab, eigh=True, ex=ex)
 
 
 @clause('C02.truncate.eigh_mode.rank_minimal', funcs=('transformation.truncate', 'svd.matrix_svd'))
-def eigh_rank_min(n, r, seed, kind, scale, order, e, cap, stab):
+def eigh_rank_min(n, r, seed, kind, scale, order, e, cap, stab, ex=0):
     """is_eigh=True, e >= 1e-4: no rank exceeds the smallest rank meeting the budget e||Y||/sqrt(d-1) of its unfolding."""
-    return _rank_minimal(n=n, r=r, seed=seed, kind=kind, scale=scale, order=order, e=e, cap=cap, stab=stab, eigh=True)
+    return _rank_minimal(n=n, r=r, seed=seed, kind=kind, scale=scale, order=order, e=e, cap=cap, stab=stab, eigh=True, ex=ex)
 
 
 @clause('C02.truncate.svd_mode.error_bound', funcs=('transformation.truncate', 'svd.matrix_skeleton'))
-def svd_error_bound(n, r, seed, kind, scale, order, e, cap, stab):
+def svd_error_bound(n, r, seed, kind, scale, order, e, cap, stab, ex=0):
     """is_eigh=False: ||Y - Z|| <= e ||Y|| whenever the cap does not bind (known defect of the pinned tree)."""
-    return _error_bound(n=n, r=r, seed=seed, kind=kind, scale=scale, order=order, e=e, cap=cap, stab=stab, eigh=False)
+    return _error_bound(n=n, r=r, seed=seed, kind=kind, scale=scale, order=order, e=e, cap=cap, stab=stab, eigh=False, ex=ex)
 
 
 @clause('C02.truncate.svd_mode.rss_optimal', funcs=('transformation.truncate', 'svd.matrix_skeleton'))
-def svd_rss(n, r, seed, kind, scale, order, e, cap, stab):
+def svd_rss(n, r, seed, kind, scale, order, e, cap, stab, ex=0):
     """is_eigh=False: the error is at most the root-sum-square of the best unfolding errors at the returned ranks."""
-    return _rss_optimal(n=n, r=r, seed=seed, kind=kind, scale=scale, order=order, e=e, cap=cap, stab=stab, eigh=False)
+    return _rss_optimal(n=n, r=r, seed=seed, kind=kind, scale=scale, order=order, e=e, cap=cap, stab=stab, eigh=False, ex=ex)
 
 
 @clause('C02.truncate.svd_mode.rank_minimal', funcs=('transformation.truncate', 'svd.matrix_skeleton'))
-def svd_rank_min(n, r, seed, kind, scale, order, e, cap, stab):
+def svd_rank_min(n, r, seed, kind, scale, order, e, cap, stab, ex=0):
     """is_eigh=False, e >= 1e-4: no rank exceeds the smallest rank meeting the budget of its unfolding."""
-    return _rank_minimal(n=n, r=r, seed=seed, kind=kind, scale=scale, order=order, e=e, cap=cap, stab=stab, eigh=False)
+    return _rank_minimal(n=n, r=r, seed=seed, kind=kind, scale=scale, order=order, e=e, cap=cap, stab=stab, eigh=False, ex=ex)
 
 
 @clause('C02.truncate.d2_exact_rank', funcs=('transformation.truncate', 'svd.matrix_svd', 'svd.matrix_skeleton'))
@@ -279,13 +299,163 @@ def d2_exact_rank(n, seed, spec, scale, q, sign, stab, eigh):
     return PASS
 
 
+# ----------------------------------------------------------------------------- own TT oracles (no dense array)
+
+def _left_orth(Y):
+    """Own left-to-right QR sweep (NumPy only): same tensor, cores 0..d-2 with orthonormal columns."""
+    Z = [np.array(G, dtype=float) for G in Y]
+    for k in range(len(Z) - 1):
+        r1, m, r2 = Z[k].shape
+        Q, R = np.linalg.qr(Z[k].reshape(r1 * m, r2))
+        Z[k] = Q.reshape(r1, m, Q.shape[1])
+        Z[k + 1] = np.einsum('ab,bmc->amc', R, Z[k + 1])
+    return Z
+
+
+def own_spectra(Y):
+    """(singular values of the d-1 unfoldings, Frobenius norm) from the cores alone: QR sweep to the right, then SVD
+    sweep to the left (the weights travel with the remainder, nothing is truncated)."""
+    Z = _left_orth(Y)
+    d = len(Z)
+    nrm = float(np.linalg.norm(Z[-1]))
+    svs = [None] * (d - 1)
+    for k in range(d - 1, 0, -1):
+        r1, m, r2 = Z[k].shape
+        U, sv, Vt = np.linalg.svd(Z[k].reshape(r1, m * r2), full_matrices=False)
+        svs[k - 1] = sv
+        Z[k] = Vt.reshape(-1, m, r2)
+        Z[k - 1] = np.einsum('amb,bc->amc', Z[k - 1], U * sv)
+    return svs, nrm
+
+
+def own_distance(Y, Z):
+    """||Y - Z||_F through the block TT of the difference and a QR sweep (no cancellation of large scalar products)."""
+    d = len(Y)
+    W = []
+    for k, (G, H) in enumerate(zip(Y, Z)):
+        G, H = np.asarray(G, dtype=float), np.asarray(H, dtype=float)
+        if k == 0:
+            W.append(np.concatenate([G, -H], axis=2))
+        elif k == d - 1:
+            W.append(np.concatenate([G, H], axis=0))
+        else:
+            T = np.zeros((G.shape[0] + H.shape[0], G.shape[1], G.shape[2] + H.shape[2]))
+            T[:G.shape[0], :, :G.shape[2]] = G
+            T[G.shape[0]:, :, G.shape[2]:] = H
+            W.append(T)
+    return float(np.linalg.norm(_left_orth(W)[-1]))
+
+
+def _resolve_many(e, svs, nrm, d):
+    if not isinstance(e, (list, tuple)):
+        return float(e)
+    k, q, sign = e
+    if k >= len(svs) or q >= len(svs[k]) or q < 1:
+        return None
+    e0 = tails(svs[k])[q] * math.sqrt(d - 1) / nrm
+    if not (1e-2 <= e0 <= 0.9):
+        return None
+    return e0 * (1 + sign * 1e-6)
+
+
+@clause('C02.truncate.many_modes', funcs=('transformation.truncate', 'svd.matrix_svd', 'svd.matrix_skeleton'))
+def truncate_many_modes(d, nk, r, seed, kind, e, cap, stab, eigh):
+    """d = 20 .. 70 modes (no dense array): all four contract clauses with the spectra of the unfoldings and the
+    distance ||Y - Z|| computed from the cores alone by own QR / SVD sweeps.  Here the budget split e/sqrt(d-1) over
+    many bonds matters: ranks must not exceed the minimal ones (e >= 1e-2), the error must stay below e ||Y||."""
+    n = [nk] * d
+    Y = make(n, [1] + [r] * (d - 1) + [1], seed, kind, 1.0)
+    svs, nrm = own_spectra(Y)
+    if not (nrm > 0 and np.isfinite(nrm)):
+        return SKIP('zero tensor')
+    ee = _resolve_many(e, svs, nrm, d)
+    if ee is None:
+        return SKIP('threshold outside [1e-2, 0.9] or not present')
+    rin = [1] + [G.shape[2] for G in Y]
+    snap = gen.snapshot(Y)
+    Z = teneva.truncate(Y, ee, cap, use_stab=stab, is_eigh=eigh)
+    if gen.snapshot(Y) != snap:
+        return FAIL('input changed')
+    msg = gen.wf(Z, n)
+    if msg:
+        return FAIL('result not well-formed: ' + msg)
+    if not gen.finite(Z):
+        return FAIL('non-finite cores')
+    rk = [1] + [G.shape[2] for G in Z]
+    for k in range(1, d):
+        if rk[k] > max(1, int(cap)) or rk[k] > rin[k]:
+            return FAIL(f'rank {k} = {rk[k]} exceeds the cap {cap} or the input rank {rin[k]}')
+    err = own_distance(Y, Z)
+    floor2 = 16.0 * d * max(rin) * EPS * nrm ** 2
+    best2 = sum(tails(sv)[min(rk[k + 1], len(sv))] ** 2 for k, sv in enumerate(svs))
+    if not err ** 2 <= best2 * (1 + 1e-6) + floor2:
+        return FAIL(f'||Y-Z|| = {err:.6e} > rss of best unfolding errors {math.sqrt(best2):.6e} (e = {ee:.3e}, ||Y|| = {nrm:.3e})')
+    capbinds = cap < 1e6 and any(x >= max(1, int(cap)) for x in rk[1:-1])
+    if not capbinds and not err ** 2 <= (ee * nrm) ** 2 * (1 + 2e-6) + floor2:
+        return FAIL(f'||Y-Z|| = {err / nrm:.6e} ||Y|| > e = {ee:.6e} (d = {d}, ranks {rk})')
+    if ee >= 1e-2:
+        budget = ee * nrm / math.sqrt(d - 1) * (1 - 5e-7)
+        for k, sv in enumerate(svs):
+            t = tails(sv)
+            qmin = max(1, next(q for q in range(len(t)) if t[q] <= budget))
+            if rk[k + 1] > qmin:
+                return FAIL(f'bond {k + 1}: rank {rk[k + 1]} > minimal rank {qmin} meeting the budget {budget:.6e} '
+                            f'(tails {t[max(0, qmin - 1):qmin + 1]}, e = {ee:.6e}, d = {d})')
+    return PASS if rk != rin else TRIVIAL('nothing truncated')
+
+
+@clause('C02.truncate.no_orth', funcs=('transformation.truncate', 'svd.matrix_svd', 'svd.matrix_skeleton'))
+def truncate_no_orth(n, r, seed, kind, scale, e, cap, stab, eigh, pre):
+    """orth=False: the sweep alone, e is then the absolute budget of every unfolding.  pre=True: the input is
+    left-orthonormal already (own QR sweep), so the contract of the sweep applies - error <= sqrt(d-1) e_abs and
+    <= rss of the best unfolding errors at the returned ranks; pre=False: structure only (well-formed, same shape,
+    ranks <= cap and <= input ranks).  The input stays untouched in both cases."""
+    Y = make(n, r, seed, kind, scale)
+    d = len(n)
+    if pre:
+        Y = _left_orth(Y)
+    D = gen.dense(Y)
+    nrm = float(np.linalg.norm(D))
+    if nrm == 0 or not np.isfinite(nrm):
+        return SKIP('zero tensor (C11)')
+    e_abs = e * nrm / math.sqrt(d - 1)
+    rin = [1] + [G.shape[2] for G in Y]
+    snap = gen.snapshot(Y)
+    Z = teneva.truncate(Y, e_abs, cap, orth=False, use_stab=stab, is_eigh=eigh)
+    if gen.snapshot(Y) != snap:
+        return FAIL('input changed')
+    if gen.shares(Y, Z):
+        return FAIL('result shares memory with the input')
+    msg = gen.wf(Z, n)
+    if msg:
+        return FAIL('result not well-formed: ' + msg)
+    if not gen.finite(Z):
+        return FAIL('non-finite cores')
+    rk = [1] + [G.shape[2] for G in Z]
+    for k in range(1, d):
+        if rk[k] > max(1, int(cap)) or rk[k] > rin[k]:
+            return FAIL(f'rank {k} = {rk[k]} exceeds the cap {cap} or the input rank {rin[k]}')
+    if not pre:
+        return TRIVIAL('input not orthogonalised: structure only')
+    svs = spectra(D, n)
+    err = float(np.linalg.norm(gen.dense(Z) - D))
+    floor2 = 16.0 * d * max(rin) * EPS * nrm ** 2
+    best2 = sum(tails(sv)[min(rk[k + 1], len(sv))] ** 2 for k, sv in enumerate(svs))
+    if not err ** 2 <= best2 * (1 + 1e-6) + floor2:
+        return FAIL(f'||Y-Z|| = {err:.6e} > rss of best unfolding errors {math.sqrt(best2):.6e} at ranks {rk}')
+    capbinds = cap < 1e6 and any(x >= max(1, int(cap)) for x in rk[1:-1])
+    if not capbinds and not err ** 2 <= (e * nrm) ** 2 * (1 + 2e-6) + floor2:
+        return FAIL(f'||Y-Z|| = {err / nrm:.6e} ||Y|| > sqrt(d-1) e_abs = {e:.6e} ||Y|| (ranks {rin} -> {rk})')
+    return PASS
+
+
 # ----------------------------------------------------------------------------- add_many
 
 @clause('C02.add_many.sum_bound', funcs=('act_many.add_many', 'transformation.truncate'))
-def add_many_sum(n, r, seed, m, e, cap, freq, nums, scale):
+def add_many_sum(n, r, seed, m, e, cap, freq, nums, scale, defaults=''):
     """add_many: well-formed result of the same shape, ranks <= max(1, int(r)); when the cap does not bind the
     distance to the dense sum is within the bound accumulated over the rounding steps (each e times the norm
-    of the running sum at that step)."""
+    of the running sum at that step).  `defaults` names one argument that is left at its documented default."""
     d = len(n)
     g = gen.rng('am', n, r, seed, m)
     items, dense_items = [], []
@@ -302,7 +472,17 @@ def add_many_sum(n, r, seed, m, e, cap, freq, nums, scale):
     if all(not isinstance(x, list) for x in items):
         return SKIP('number-only input (other clause)')
     snap = gen.snapshot(items)
-    Z = teneva.add_many(items, e, cap, trunc_freq=freq)
+    if defaults == 'e':                 # documented default accuracy 1e-10
+        e = 1e-10
+        Z = teneva.add_many(items, r=cap, trunc_freq=freq)
+    elif defaults == 'r':               # no cap
+        cap = 1e12
+        Z = teneva.add_many(items, e, trunc_freq=freq)
+    elif defaults == 'freq':            # documented default trunc_freq = 15
+        freq = 15
+        Z = teneva.add_many(items, e, cap)
+    else:
+        Z = teneva.add_many(items, e, cap, trunc_freq=freq)
     if gen.snapshot(items) != snap:
         return FAIL('an input changed')
     msg = gen.wf(Z, n)
@@ -405,6 +585,55 @@ def cases(tier, seed):
                             for sign in (1, -1):
                                 for stab in ((False, True) if big else (bool((k + q + j) % 2),)):
                                     yield from _emit(dict(base0, e=[k, q, sign], cap=1e12, stab=stab))
+    # many modes: d = 20 .. 70, spectra and distances by own QR / SVD sweeps
+    for d_, nk_ in ((20, 3), (45, 2), (70, 2)) + (((32, 4), (100, 2)) if big else ()):
+        for kind in ('gauss', 'decay') + (('lowrank',) if big else ()):
+            for s_ in range(3 if big else 1):
+                svs_, nrm_ = own_spectra(make([nk_] * d_, [1] + [4] * (d_ - 1) + [1], 7 + s_, kind, 1.0))
+                ths = [(k, q) for k in (d_ // 2, d_ - 3, 2) for q in (1, 2, 3)
+                       if _resolve_many([k, q, 0], svs_, nrm_, d_) is not None][:(6 if big else 2)]
+                es = [0.3, 0.05] + ([0.7, 1e-2, 1e-4] if big else []) + [[k, q, sg] for k, q in ths for sg in (1, -1)]
+                for e in es:
+                    for stab in (False, True):
+                        for eigh in (True, False):
+                            yield 'C02.truncate.many_modes', dict(d=d_, nk=nk_, r=4, seed=7 + s_, kind=kind, e=e, cap=1e12,
+                                                                   stab=stab, eigh=eigh)
+                    yield 'C02.truncate.many_modes', dict(d=d_, nk=nk_, r=4, seed=7 + s_, kind=kind, e=e, cap=2, stab=bool(d_ % 2),
+                                                           eigh=not isinstance(e, list))
+    # per-core factors 2^ex: totals 2^(d ex) within (ex = +-100) and far outside (stab only: +300, -150) the double range
+    for n, r in (([3, 4], [1, 3, 1]), ([2, 3, 2], [1, 2, 3, 1]), ([2, 2, 3, 2], [1, 2, 4, 2, 1])) + \
+            ((([3, 3, 3], [1, 3, 3, 1]), ([2, 2, 2, 2, 2], [1, 2, 4, 4, 2, 1])) if big else ()):
+        for ki, kind in enumerate(('gauss', 'lowrank', 'decay')):
+            for ex, stabs in ((100, (False, True)), (-100, (False, True)), (300, (True,)), (-150, (True,))):
+                base0 = dict(n=n, r=r, seed=11 + ki, kind=kind, scale=1.0, order='CFV'[ki], ex=ex)
+                th = _thresholds(n, r, 11 + ki, kind, 1.0)[:: 2 if big else 3]
+                for stab in stabs:
+                    for e in [0.1, 1e-8] + ([0.5, 1e-3] if big else []) + [[k, q, sg] for k, q in th for sg in (1, -1)]:
+                        yield from _emit(dict(base0, e=e, cap=1e12, stab=stab))
+                    yield from _emit(dict(base0, e=1e-8, cap=2, stab=stab))
+    # large mode sizes
+    for n, r in (([520, 3], [1, 3, 1]), ([2, 300, 2], [1, 2, 2, 1]), ([1, 1025, 2], [1, 1, 2, 1])) + \
+            ((([3, 2048], [1, 3, 1]), ([260, 2, 260], [1, 4, 4, 1])) if big else ()):
+        for ki, kind in enumerate(('gauss', 'decay', 'lowrank')):
+            base0 = dict(n=n, r=r, seed=21 + ki, kind=kind, scale=(1.0, 1e-6, 1e6)[ki], order='CFV'[ki])
+            th = _thresholds(n, r, 21 + ki, kind, base0['scale'])[:: 1 if big else 2]
+            for stab in (False, True):
+                for e in [0.3, 1e-8] + [[k, q, sg] for k, q in th for sg in (1, -1)]:
+                    yield from _emit(dict(base0, e=e, cap=1e12, stab=stab))
+            yield from _emit(dict(base0, e=1e-8, cap=1, stab=bool(ki % 2)))
+            yield from _emit(dict(base0, e=1e-8, cap=2, stab=not ki % 2))
+    # orth=False
+    for n in ([3, 4], [2, 3, 2], [3, 1, 3], [2, 3, 2, 2]) + (([4, 4, 4], [2, 2, 2, 2, 2]) if big else ()):
+        for ki, kind in enumerate(('gauss', 'decay', 'lowrank')):
+            for scale in (1.0, 1e-6, 1e6):
+                for e, cap in ((0.3, 1e12), (1e-2, 1e12), (1e-8, 1e12), (1e-8, 2), (0.1, 1)):
+                    for stab in (False, True):
+                        for eigh in (True, False):
+                            for pre in (True, False):
+                                if not big and (ki + stab + eigh + pre + (cap < 1e6) + (scale > 1)) % 2:
+                                    continue
+                                yield 'C02.truncate.no_orth', dict(n=n, r=[1] + [4] * (len(n) - 1) + [1], seed=31 + ki, kind=kind,
+                                                                    scale=scale, e=e, cap=cap, stab=stab, eigh=eigh, pre=pre)
     # d = 2, prescribed spectra: every threshold, both sides, both modes, both flags
     for n in ([5, 4], [4, 6], [3, 3]) + (([6, 6],) if big else ()):
         for spec in SPECTRA:
@@ -447,6 +676,20 @@ def cases(tier, seed):
                             yield 'C02.add_many.sum_bound', dict(n=n, r=[1, 3, 1], seed=rep + (int(g.integers(1 << 20)) if rep else 0),
                                                                  m=m, e=e, cap=cap, freq=freq, nums=nums,
                                                                  scale=(1.0, 1e-4, 1e5)[(m + freq + rep) % 3])
+    # trunc_freq that divides / does not divide the number of additions m-1 (also the documented default 15 actually
+    # firing: m = 16, 17, 31), freq > m, leading numbers, float cap, arguments left at their defaults
+    for n in ([3, 4], [2, 3, 2]) + (([2, 2, 2, 2],) if big else ()):
+        for m, freq in ((16, 15), (17, 15), (31, 15), (5, 4), (6, 4), (9, 4), (8, 7), (9, 7), (4, 3), (5, 3), (3, 50), (13, 6), (13, 5)):
+            for e, cap in ((1e-8, 1e12), (1e-2, 1e12), (1e-6, 2.7)) + (((0.2, 1e12), (1e-8, 3)) if big else ()):
+                for nums in ([], [0, 1], list(range(m - 1))[:3]):
+                    if not big and (m + freq + len(nums) + (cap < 1e6)) % 2:
+                        continue
+                    yield 'C02.add_many.sum_bound', dict(n=n, r=[1, 3, 1], seed=m + freq, m=m, e=e, cap=cap, freq=freq, nums=nums,
+                                                         scale=(1.0, 1e-7, 1e4)[(m + freq) % 3])
+        for dflt in ('e', 'r', 'freq'):
+            for m in (2, 6, 16, 17):
+                yield 'C02.add_many.sum_bound', dict(n=n, r=[1, 3, 1], seed=m, m=m, e=1e-6, cap=1e12 if dflt != 'e' else 4, freq=2,
+                                                     nums=[], scale=(1.0, 1e-7)[m % 2], defaults=dflt)
     for vals in ([2], [2, 3], [1.5, -2, 4], [1, 2, 3, 4, 5, 6, 7], [0.1, 0.2, 0.3], [-1, 1]):
         for freq in (1, 2, 15):
             yield 'C02.add_many.numbers', dict(vals=vals, freq=freq)
